@@ -296,6 +296,8 @@ type node struct {
 	rules     []rule
 	pat       string // decoded regex pattern, "" = none
 	re        *regexp.Regexp
+	rxSamples []string // strings built alongside the pattern (they match its un-anchored body)
+	rxShape   string
 	fmtT      string   // format type, "" = none
 	bounds    []dec    // values worth probing
 	lens      []int    // lengths worth probing
@@ -447,15 +449,23 @@ func numberNode(r *rand.Rand, kind string) *node {
 	return n
 }
 
-func stringNode(r *rand.Rand) *node {
+func stringNode(r *rand.Rand, forceRegex bool) *node {
 	n := &node{kind: "s", prec: -1}
 	k := r.Intn(10)
+	if forceRegex {
+		k = 9
+	}
 	switch {
 	case k <= 2: // a format type
 		f := []string{"email", "uri", "uuid", "date", "datetime"}[r.Intn(5)]
 		n.fmtT = f
 		pool := fmtPools[f][0]
 		n.exStr = pool[r.Intn(len(pool))]
+		if r.Intn(3) == 0 {
+			if g := genFmtExample(r, f); g != "" {
+				n.exStr = g
+			}
+		}
 		n.ex = spellStr(r, n.exStr, 5)
 		n.add(rule{`type: "` + f + `"`, "t:" + f, "type_" + f})
 		n.common(r)
@@ -466,19 +476,36 @@ func stringNode(r *rand.Rand) *node {
 		enumNode(r, n)
 		return n
 	}
-	if r.Intn(3) == 0 {
-		n.pat = regexPool[r.Intn(len(regexPool))]
+	if forceRegex || r.Intn(3) == 0 {
+		g := genRegex(r, regexPool)
+		n.pat, n.rxSamples, n.rxShape = g.src, g.samples, g.shape
 		n.re = regexp.MustCompile(n.pat)
-		// an example that matches, if the pool has one
-		off := r.Intn(len(strContents))
-		n.exStr = strContents[off]
-		for i := range strContents {
-			if c := strContents[(off+i)%len(strContents)]; n.re.MatchString(c) {
-				n.exStr = c
-				break
+		// an example that matches: one of the strings built with the pattern, else one of the pool (if none
+		// matches, Check refuses the node; counted)
+		found := false
+		if len(g.samples) > 0 {
+			off := r.Intn(len(g.samples))
+			for i := range g.samples {
+				if c := g.samples[(off+i)%len(g.samples)]; n.re.MatchString(c) {
+					n.exStr, found = c, true
+					break
+				}
+			}
+		}
+		if !found {
+			off := r.Intn(len(strContents))
+			n.exStr = strContents[off]
+			for i := range strContents {
+				if c := strContents[(off+i)%len(strContents)]; n.re.MatchString(c) {
+					n.exStr = c
+					break
+				}
 			}
 		}
 		q := jsonQuote(n.pat)
+		if r.Intn(4) == 0 { // the pattern is a JSON string of the schema text: any spelling of it
+			q = spellStr(r, n.pat, 15)
+		}
 		n.add(rule{"regex: " + q, "r:" + hexs(n.pat), "regex"})
 	} else {
 		n.exStr = strContents[r.Intn(len(strContents))]
@@ -620,13 +647,15 @@ func inapplicable(r *rand.Rand, n *node) {
 
 func genNode(r *rand.Rand) *node {
 	var n *node
-	switch k := r.Intn(20); {
+	switch k := r.Intn(23); {
 	case k < 5:
 		n = numberNode(r, "i")
 	case k < 11:
 		n = numberNode(r, "f")
 	case k < 17:
-		n = stringNode(r)
+		n = stringNode(r, false)
+	case k >= 20: // the stream of regex nodes
+		n = stringNode(r, true)
 	case k < 19:
 		n = wordNode(r, "b")
 	default:
@@ -843,6 +872,31 @@ func docsFor(r *rand.Rand, n *node) []doc {
 		if n.exStr != "" && r.Intn(2) == 0 {
 			out = append(out, doc{spellStr(r, mutate(r, n.exStr), 20), "str_example_mutated"})
 		}
+		if n.re != nil { // probes derived from the pattern
+			bases := append([]string{n.exStr}, n.rxSamples...)
+			for i := 0; i < 2 && i < len(n.rxSamples); i++ {
+				out = append(out, doc{spellStr(r, n.rxSamples[r.Intn(len(n.rxSamples))], 10), "rx_built_with_pattern"})
+			}
+			for k := 0; k < nDerive; k++ {
+				c, cls := derive(r, bases[r.Intn(len(bases))], k)
+				out = append(out, doc{spellStr(r, c, 10), "rx_derived_" + cls})
+			}
+		}
+		if n.fmtT != "" { // probes derived from a valid value, and values composed from boundary parts
+			pos := fmtPools[n.fmtT][0]
+			for i := 0; i < 5; i++ {
+				base := n.exStr
+				if r.Intn(2) == 0 {
+					base = pos[r.Intn(len(pos))]
+				}
+				c, cls := derive(r, base, -1)
+				out = append(out, doc{spellStr(r, c, 10), "fmt_derived_" + cls})
+			}
+			for i := 0; i < 6; i++ {
+				c, cls := genFmt(r, n.fmtT)
+				out = append(out, doc{spellStr(r, c, 10), "fmt_composed_" + n.fmtT + "_" + cls})
+			}
+		}
 		out = append(out, doc{oddStrToks[r.Intn(len(oddStrToks))], "str_odd_surrogates_or_utf8"})
 		if _, err := strconv.ParseFloat(n.exStr, 64); err == nil && !strings.ContainsAny(n.exStr, " xXpPiInN_") {
 			out = append(out, doc{n.exStr, "lookalike_of_example"})
@@ -973,6 +1027,9 @@ func oneNode(seed int64) nodeResult {
 	mode := r.Intn(4) % 3 // root twice as often
 	schema := layout(mode, n.ex, ann)
 	res.stats = append(res.stats, "nodes_generated", "node_kind_"+n.kind)
+	if n.rxShape != "" {
+		res.stats = append(res.stats, "rx_generated")
+	}
 	if n.malformed {
 		res.stats = append(res.stats, "stream_inapplicable_rule")
 	}
@@ -987,6 +1044,12 @@ func oneNode(seed int64) nodeResult {
 		res.stats = append(res.stats, "inapplicable_accepted_by_check")
 	}
 	res.stats = append(res.stats, "nodes_checked", fmt.Sprintf("layout_%d", mode), fmt.Sprintf("rules_in_set_%d", len(n.rules)))
+	if n.rxShape != "" && !n.malformed {
+		res.stats = append(res.stats, "rx_checked")
+		for _, part := range strings.Split(n.rxShape, "/") {
+			res.stats = append(res.stats, "rx_checked_"+part)
+		}
+	}
 	cn := map[string]string{"nullable": "absent", "const": "absent"}
 	for _, ru := range n.rules {
 		res.stats = append(res.stats, "rule_"+ru.name)
@@ -1026,6 +1089,9 @@ func oneNode(seed int64) nodeResult {
 		if d.tok == "null" {
 			st = append(st, "null_doc_"+v+"_under_"+combo)
 		}
+		if n.re != nil && strings.HasPrefix(d.tok, `"`) {
+			st = append(st, "rx_oracle_match_"+string(bits[0]))
+		}
 		if zeroExpRe.MatchString(d.tok) {
 			st = append(st, "class_K-C10-zeroexp")
 		}
@@ -1047,9 +1113,9 @@ func oneNode(seed int64) nodeResult {
 }
 
 func Run(args []string) {
-	rep := vh.NewReport(command, "one scalar schema node `<example> // {rules}` (root / object property / array item) x ~20 document scalars; rule sets per kind from everything the checker can accept: numbers min / max (bounds on, one unit, one tenth or far from the example, spelled with extra zeros and -0) with exclusiveMinimum / exclusiveMaximum true or false, precision with and without type decimal, strings minLength / maxLength around the example's decoded byte length, regex from a pool of 20 patterns (rune- versus byte-sensitive ones included), the formats email / uri / uuid / date / datetime, const and nullable true or false on every kind, enum (1..5 items: the example verbatim, other spellings of it, its look-alike of another kind, words, numbers, strings; with const / nullable / type enum) on every kind, plain type names; rule order random; one node in three (every boolean / null node) draws const and nullable from the 3 x 3 grid absent / true / false so that every combination occurs with and without further rules (stats combo_*, null_doc_*); one node in 25 gets a rule of another family (stream inapplicable: Check must refuse, counted); rule sets refused by Check are skipped and counted by error code; documents: the example verbatim and re-spelled, values on / one last-digit unit / one tenth around each bound and at p / p+1 fractional digits in random RFC 8259 spellings (minus zero, trailing zeros, exponent e/E -3..3 and -20..20 with optional + and leading zero, point moved), exponent-notation numerals with a 1..3 digit mantissa and exponent -9..3 (5E-9, 25e-5, 1.25e2) and, under precision p, with exactly p-1 .. p+2 fractional digits; strings whose RUNE count sits at a length bound while their byte length is above it; 27 long / odd numerals (30 digits, 1e400, 1.10 / 11e-1 / 110e-2), zero-exponent numerals (class K-C10-zeroexp), strings of decoded length bound-1 / bound / bound+1 in random spellings (raw UTF-8, \\uXXXX either case, two-character escapes, surrogate pairs), 26 odd tokens (lone / reversed / doubled surrogates, invalid and overlong UTF-8), format strings positive / negative / mutated / of another format, every enum item verbatim / re-spelled (numbers by value: K-C10-enumtext) / as the look-alike of another kind, null, and tokens of every kind; oracles regexp / mail / url / time evaluated in Go on the encoding/json decoding of the token and checked against the model's own Unquote (UNQDIFF); real Validate()==nil vs model ACC; nontrivial = the rule set is not empty")
+	rep := vh.NewReport(command, "one scalar schema node `<example> // {rules}` (root / object property / array item) x ~20 document scalars; rule sets per kind from everything the checker can accept: numbers min / max (bounds on, one unit, one tenth or far from the example, spelled with extra zeros and -0) with exclusiveMinimum / exclusiveMaximum true or false, precision with and without type decimal, strings minLength / maxLength around the example's decoded byte length, regex GENERATED from parts (literals with and without metacharacters / quotes / slashes / line breaks in four spellings, character classes, alternation groups, quantifiers; anchors ^ $ \\A \\z \\b on neither / one / both sides, inside and outside a group, doubled, padded with .*; flags i m s; alternation at the top level; 30 degenerate expressions such as the empty one; the former pool of 20; stats rx_checked_*; the pattern in the schema text quoted minimally or in a random JSON spelling; a dedicated stream makes 3 nodes in 23 regex nodes), the formats email / uri / uuid / date / datetime, const and nullable true or false on every kind, enum (1..5 items: the example verbatim, other spellings of it, its look-alike of another kind, words, numbers, strings; with const / nullable / type enum) on every kind, plain type names; rule order random; one node in three (every boolean / null node) draws const and nullable from the 3 x 3 grid absent / true / false so that every combination occurs with and without further rules (stats combo_*, null_doc_*); one node in 25 gets a rule of another family (stream inapplicable: Check must refuse, counted); rule sets refused by Check are skipped and counted by error code; documents: the example verbatim and re-spelled, values on / one last-digit unit / one tenth around each bound and at p / p+1 fractional digits in random RFC 8259 spellings (minus zero, trailing zeros, exponent e/E -3..3 and -20..20 with optional + and leading zero, point moved), exponent-notation numerals with a 1..3 digit mantissa and exponent -9..3 (5E-9, 25e-5, 1.25e2) and, under precision p, with exactly p-1 .. p+2 fractional digits; strings whose RUNE count sits at a length bound while their byte length is above it; 27 long / odd numerals (30 digits, 1e400, 1.10 / 11e-1 / 110e-2), zero-exponent numerals (class K-C10-zeroexp), strings of decoded length bound-1 / bound / bound+1 in random spellings (raw UTF-8, \\uXXXX either case, two-character escapes, surrogate pairs), 26 odd tokens (lone / reversed / doubled surrogates, invalid and overlong UTF-8), format strings positive / negative / mutated / of another format, for a regex node the strings built alongside the pattern and 12 strings DERIVED from them (prefix, suffix, both, line break after / before, CRLF, one character replaced by a neighbour / deleted / inserted, case changed, doubled, empty; expected verdict = Go regexp.Match on the decoded string), for a format node 5 strings derived the same way from a valid value and 6 composed from boundary parts (date: leap / common / century years x month x day 0..32 and 14 layout variants; datetime: date x T x hh:mm:ss x fraction x zone with out-of-range fields; uuid: four forms, mixed case, one anomaly of length -1 / +1, characters next to the hex ranges, hyphen moved, braces / urn prefix altered, multi-byte character; e-mail local x domain x wrapper; uri scheme x separator x authority x tail), every enum item verbatim / re-spelled (numbers by value: K-C10-enumtext) / as the look-alike of another kind, null, and tokens of every kind; oracles regexp / mail / url / time evaluated in Go on the encoding/json decoding of the token and checked against the model's own Unquote (UNQDIFF); real Validate()==nil vs model ACC; nontrivial = the rule set is not empty")
 	r := vh.NewRand(salt)
-	nNodes := vh.Pick(20000, 300000)
+	nNodes := vh.Pick(24000, 345000) // 20 in 23 nodes are drawn as before the regex stream was added
 	const batch = 8000
 	for done := 0; done < nNodes; done += batch {
 		k := batch
